@@ -365,7 +365,7 @@ impl Sys {
                 .map(|(a, b)| (a.clone(), b.clone()))
                 .collect();
             for (s, a) in self.accts() {
-                if s == "pm" || s == "fc" || s == "em" {
+                if s == "fc" || s == "em" {
                     continue;
                 }
                 let mut per_lp = Map::new();
